@@ -19,6 +19,9 @@ counting ghost.
                   with the first estimate met; records every contributing (writer, incarnation); validation compares the whole
                   origin chain; publications are accepted only for a strictly newer incarnation.
   h4_history_invalidate : invalidation acts only on the inspected incarnation.
+  h6_failed_validation_invalidates_history : (= C02/validate_conflict_retracts) the scheduler side of invalidation: the real Scheduler::validate calls
+                  Beneficiary::invalidate exactly once for every validation that ends in Conflict -- also when the incarnation's write set is empty
+                  (a fee-recipient-only transaction publishes a history snapshot but no multi-version-memory location).
   h5_beneficiary_read : IncarnationDb::basic(fee recipient) returns exactly the history's resolution, records a Beneficiary read
                   version carrying the whole origin chain, and on an estimate blocks the incarnation (flag + blocker, absent account, no
                   read-set entry, no read of the mutable committed cache).
@@ -387,4 +390,9 @@ def specs(tier):
     out.append(Spec("h5_beneficiary_read", build_h5(), cfg=h5_cfg(), unwind=HN + 3, timeout=2700,
                     desc="real IncarnationDb::basic on the fee recipient over a real Beneficiary with ANY 3-entry history: value, Beneficiary read version, blocking",
                     bounds={"n": HN, "value_bits": 8}))
+    import c02
+    for s_ in c02.specs(tier):
+        if s_.name == "validate_conflict_retracts_n3_l2":
+            s_.name = "h6_failed_validation_invalidates_history"
+            out.append(s_)
     return out
